@@ -26,7 +26,7 @@ func checkC20(c *vkit.Ctx) {
 		return
 	}
 	lab := NewLab(p, "")
-	n := c.N(2000, 30000)
+	n := c.N(2000, 12000) // thorough children are -race builds (about 0.13 s per case on 16 cores)
 	for i := 0; i < n; i++ {
 		if !c.Mine(i) {
 			continue
